@@ -142,6 +142,22 @@ def g_class_list(r):
              "abstract": r.random() < 0.25} for n in names]
 
 
+STYLES = ["filenames", "namespaces", "clusters", "single-package", "namespace-clusters"]
+
+
+def with_locations(r, classes, mode=None):
+    """source locations for a class list: one location for all, one per namespace, or mixed; plus a structure style"""
+    mode = mode or r.choice(["one", "one", "per-ns", "mixed"])
+    for c in classes:
+        if mode == "one":
+            c["loc"] = "file:///a.xsd"
+        elif mode == "per-ns":
+            c["loc"] = "file:///" + (re.sub(r"\W", "", c["ns"]) or "none") + ".xsd"
+        else:
+            c["loc"] = r.choice(["file:///a.xsd", "file:///b.xsd", "file:///a.xml"])
+    return classes, r.choice(STYLES)
+
+
 def coq_codes(tag, ctype, fn, terms, shard=300):
     """Evaluate `fn : ctype -> N` on every term inside Coq; returns the list of numbers."""
     import re
@@ -503,7 +519,12 @@ def resolve_pipeline(job, res, prelim, coq):
             for n, c2, q2 in zip(names, cnames, qn):
                 collide.setdefault(c2, set()).add(q2.split("}")[0] if q2.startswith("{") else "")
             if "::" not in k[1][1] and code == 1 and any(len(v) > 1 for v in collide.values()):
-                out.append(("dup-class-qname-vs-module", what + "  (same local name, different namespaces, one module)"))
+                # F17 needs classes from several locations (only then are qualified names compared); from ONE location
+                # plain names must have been made unique
+                if len(job["sources"]) > 1:
+                    out.append(("dup-class-qname-vs-module", what + "  (same local name, different namespaces, one module)"))
+                else:
+                    out.append(("dup-class-single-location", what + "  (one source location: plain names have to be unique)"))
             elif "::" in k[1][1] and code in (1, 2):
                 out.append(("dup-inner-class", what + "  (inner classes are never renamed apart)"))
             elif code == 2:
@@ -537,6 +558,8 @@ def pipeline_oracle(ck: Check):
         ("xsd", {"s.xsd": W_XSD_F13}, {}), ("xsd", {"s.xsd": W_XSD_F16}, {}), ("xsd", {"s.xsd": W_XSD_F20}, {}),
         ("xsd", {"s.xsd": W_XSD_F14}, {"generic_collections": True}),
         ("xml", {"await0.xml": W_XML_F12}, {"wrapper_fields": True, "frozen": True, "slots": True}),
+        ("xml", {"sample.xml": W_XML_NS}, {}), ("xml", {"sample.xml": W_XML_NS}, {"structure_style": "namespaces"}),
+        ("xml", {"sample.xml": W_XML_NS}, {"structure_style": "namespace-clusters"}),
         ("xsd", {"s.xsd": W_XSD_F21}, {}), ("xsd", {"s.xsd": W_XSD_F22}, {"structure_style": "single-package"}),
         ("xsd", {"one.xsd": W_XSD_CLUSTER, "two.xsd": W_XSD_OTHER}, {}),
         ("xsd", {"one.xsd": W_XSD_CLUSTER, "two.xsd": W_XSD_OTHER}, {"structure_style": "namespaces"}),
@@ -608,6 +631,7 @@ W_XSD_F14 = _xsd(_ct("Sequence", ["x"]) + '<xs:complexType name="T"><xs:sequence
 
 
 W_XML_F12 = '<values><True ForwardRef="-١"><_1></_1><_1 values="" AB_a_b="A">mixed <_1><True True="\'"> </True></_1> tail</_1><_1><values>mixed <values></values> tail</values><_1 True="-.5" _1="class"> </_1><values> </values></_1><values><_1><_1></_1><True>2001-01-01</True></_1><True>true</True></values></True><True>2001-01-01</True></values>'
+W_XML_NS = ('<a:root xmlns:a="urn:a" xmlns:b="urn:b"><a:item><a:x>1</a:x></a:item><b:item><b:y>text</b:y></b:item></a:root>')
 W_XSD_F21 = _xsd('<xs:complexType name="B"><xs:sequence><xs:element name="x" type="xs:string"/></xs:sequence></xs:complexType>'
                  '<xs:complexType name="D"><xs:complexContent><xs:extension base="B"><xs:attribute name="x" type="xs:string"/>'
                  '<xs:attribute name="x_Attribute" type="xs:string"/></xs:extension></xs:complexContent></xs:complexType>')
@@ -686,14 +710,21 @@ def run(ck: Check):
         conv = g_conv(r) if r.random() < 0.3 else {}
         add({"op": "rename_attrs", "attrs": g_attr_list(r), "conv": conv}, kind="rename_attrs", conv=conv)
     for un, cl in WITNESS_CLASSES:
-        add({"op": "rename_classes", "use_names": un, "classes": cl, "conv": {}}, kind="rename_classes", conv={})
+        cl2, _ = with_locations(r, [dict(c) for c in cl], "one" if un else "per-ns")
+        add({"op": "rename_classes", "style": "filenames", "classes": cl2, "conv": {}}, kind="rename_classes", conv={})
+    # same local name in two namespaces, ONE location (an XML sample): plain names must be compared
+    for style in STYLES:
+        cl = [{"ns": "urn:a", "name": "root", "element": True, "abstract": False, "loc": "file:///s.xml"},
+              {"ns": "urn:a", "name": "item", "element": True, "abstract": False, "loc": "file:///s.xml"},
+              {"ns": "urn:b", "name": "item", "element": True, "abstract": False, "loc": "file:///s.xml"}]
+        add({"op": "rename_classes", "style": style, "classes": cl, "conv": {}}, kind="rename_classes", conv={})
     for _ in range(200 * N):
         conv = g_conv(r) if r.random() < 0.3 else {}
-        add({"op": "rename_classes", "use_names": r.random() < 0.6, "classes": g_class_list(r), "conv": conv},
-            kind="rename_classes", conv=conv)
+        cl, style = with_locations(r, g_class_list(r))
+        add({"op": "rename_classes", "style": style, "classes": cl, "conv": conv}, kind="rename_classes", conv=conv)
     for _ in range(160 * N):
-        add({"op": "rename_classes", "use_names": r.random() < 0.4, "classes": g_class_cluster(r), "conv": {}},
-            kind="rename_classes", conv={})
+        cl, style = with_locations(r, g_class_cluster(r))
+        add({"op": "rename_classes", "style": style, "classes": cl, "conv": {}}, kind="rename_classes", conv={})
 
     res = run_impl("impl_c07.py", ops, timeout=900, with_shims=True)
     ck.cov["evaluations"] = len(ops)
@@ -854,11 +885,21 @@ def run(ck: Check):
         if "err" in it[2]:
             ck.failure("unexpected-exception-" + it[2]["err"], f"RenameDuplicateClasses {it[1]} raised {it[2]}", {"op": it[1], "impl": it[2]})
     items = [it for it in items if "ok" in it[2]]
-    terms = [f"({cbool(it[1]['use_names'])}, {clist([it[1]['classes'][i] for i in it[2]['order']], cls_term, 'str * str * bool * bool')}, {lstr(it[2]['ok'])})"
+    def locs(it):
+        return lstr([it[1]["classes"][i]["loc"] for i in it[2]["order"]])
+
+    for it in items:
+        it[1]["use_names"] = it[2]["use_names"]      # what the implementation decided; judged against the model's rule next
+    uterms = [f"({cstr(it[1]['style'])}, {locs(it)}, {cbool(it[2]['use_names'])})" for it in items]
+    for it in run_pred("use_names", "str * list str * bool", "agree_should_use_names", items, uterms):
+        ck.failure("corr-should-use-names", f"RenameDuplicateClasses.should_use_names = {it[2]['use_names']} for style {it[1]['style']} and locations "
+                   f"{sorted({c['loc'] for c in it[1]['classes']})}: the model (unique-name styles, or ONE source location) says otherwise",
+                   {"op": it[1], "impl": it[2]})
+    terms = [f"({cstr(it[1]['style'])}, {locs(it)}, {clist([it[1]['classes'][i] for i in it[2]['order']], cls_term, 'str * str * bool * bool')}, {lstr(it[2]['ok'])})"
              for it in items]
     for it in items:
-        distinct.add(("rename_classes", json.dumps(it[1]["classes"], sort_keys=True), it[1]["use_names"]))
-    corr_bad = run_pred("rename_classes", "bool * list (str * str * bool * bool) * list str", "agree_rename_classes", items, terms)
+        distinct.add(("rename_classes", json.dumps(it[1]["classes"], sort_keys=True), it[1]["style"]))
+    corr_bad = run_pred("rename_classes", "str * list str * list (str * str * bool * bool) * list str", "agree_rename_classes", items, terms)
     for it in corr_bad:
         ck.failure("corr-rename-classes", f"model and implementation disagree on RenameDuplicateClasses({it[1]}): impl={it[2]['ok']}", {"op": it[1], "impl": it[2]})
     corr_bad_ids = {it[0] for it in corr_bad}
@@ -867,8 +908,10 @@ def run(ck: Check):
         if it[1]["use_names"]:
             return len(set(it[2]["class_names"])) != len(it[2]["class_names"])
         seen = set()
-        for q, cn in zip(it[2]["qnames"], it[2]["class_names"]):
-            key = (q.split("}")[0] if q.startswith("{") else "", cn)
+        for i, q, cn in zip(it[2]["order"], it[2]["qnames"], it[2]["class_names"]):
+            # one module per source location (filenames) or per namespace (the namespace styles)
+            where = it[1]["classes"][i]["loc"] if it[1]["style"] == "filenames" else (q.split("}")[0] if q.startswith("{") else "")
+            key = (where, cn)
             if key in seen:
                 return True
             seen.add(key)
